@@ -299,6 +299,7 @@ func c02(r *core.Report) {
 	c02Sib(r)
 	c02Term(r)
 	c02Backtrack(r)
+	resetScope(r, "C02.resetscope")
 }
 
 // c02Term: resolution terminates – every recursive descent in the resolve family is on the finite
@@ -936,6 +937,148 @@ func producesError(info *types.Info, e ast.Expr) bool {
 		if x.Op == token.AND {
 			_, ok := ast.Unparen(x.X).(*ast.CompositeLit)
 			return ok
+		}
+	}
+	return false
+}
+
+// resetScope: the loader's in-progress reference state (visited references, the path of references
+// being resolved, the positions waiting for them) is cleared only from outside a resolution: a
+// function that clears it must not be callable, directly or indirectly, from a resolver that has
+// registered a reference as in progress -- the outer frames' deferred unvisit calls would then pop
+// from an emptied stack (index out of range) or lose their waiting positions.
+func resetScope(r *core.Report, rule string) {
+	p := r.Prog
+	r.RunRule(rule, "who may clear the in-progress reference state: every caller of resetVisitedPathItemRefs is unreachable, in the call graph, from the functions that mark a reference as in progress (the callers of visitRef) — ResolveRefsIn and the internal load functions are re-entered for every external document met during a resolution and must not clear it", 1, func() {
+		p.BuildSSA()
+		cg := p.CallGraph()
+		var reset, visit *ssa.Function
+		for _, fn := range allFuncsOf(p.SSAPkg("openapi3")) {
+			switch fn.Name() {
+			case "resetVisitedPathItemRefs":
+				reset = fn
+			case "visitRef":
+				visit = fn
+			}
+		}
+		if reset == nil || visit == nil {
+			core.Fail("resetVisitedPathItemRefs / visitRef not found in openapi3")
+		}
+		var marks []*ssa.Function
+		if n := cg.Nodes[visit]; n != nil {
+			for _, e := range n.In {
+				marks = append(marks, e.Caller.Func)
+			}
+		}
+		if len(marks) < 9 {
+			core.Fail("only %d callers of visitRef found", len(marks))
+		}
+		inRes := p.Reachable(marks)
+		n := cg.Nodes[reset]
+		if n == nil || len(n.In) == 0 {
+			core.Fail("resetVisitedPathItemRefs has no callers")
+		}
+		seen := map[string]bool{}
+		for _, e := range n.In {
+			c := e.Caller.Func
+			key := "resetscope:" + shortFn(c)
+			if seen[key] {
+				continue
+			}
+			seen[key] = true
+			if inRes[c] && lazyInitGuard(p, c, e.Site, reset) {
+				r.OK(key, p.Pos(e.Site.Pos()), "clears the state only when it was never initialised (a nil test of a field the reset assigns guards the call): not during a resolution")
+				continue
+			}
+			if inRes[c] {
+				r.Bad(key, p.Pos(e.Site.Pos()), fmt.Sprintf("%s clears the in-progress reference state but can run during a resolution (%s): frames that registered a reference as in progress still have their deferred unvisit pending and then pop from the emptied path (slice bounds out of range) or lose the positions waiting for the reference", shortFn(c), entryPathFrom(p, marks, c)))
+			} else {
+				r.OK(key, p.Pos(e.Site.Pos()), "called from outside any resolution")
+			}
+		}
+	})
+}
+
+// entryPathFrom: a shortest call path from one of the roots to target, for the report.
+func entryPathFrom(p *core.Prog, roots []*ssa.Function, target *ssa.Function) string {
+	cg := p.CallGraph()
+	prev := map[*ssa.Function]*ssa.Function{}
+	var work []*ssa.Function
+	for _, f := range roots {
+		if _, ok := prev[f]; !ok {
+			prev[f] = nil
+			work = append(work, f)
+		}
+	}
+	for len(work) > 0 {
+		f := work[0]
+		work = work[1:]
+		if f == target {
+			var path []string
+			for x := f; x != nil; x = prev[x] {
+				path = append([]string{shortFn(x)}, path...)
+			}
+			return "call path " + strings.Join(path, " -> ")
+		}
+		if n := cg.Nodes[f]; n != nil {
+			for _, e := range n.Out {
+				g := e.Callee.Func
+				if _, ok := prev[g]; !ok {
+					prev[g] = f
+					work = append(work, g)
+				}
+			}
+		}
+	}
+	return "no path found"
+}
+
+// lazyInitGuard: the call of the reset function is guarded by `recv.F == nil` for a field F that the
+// reset function assigns (first-use initialisation).
+func lazyInitGuard(p *core.Prog, caller *ssa.Function, site ssa.CallInstruction, reset *ssa.Function) bool {
+	_, fd, info := declOfSSA(p, caller)
+	if fd == nil || fd.Body == nil || site == nil {
+		return false
+	}
+	// fields assigned by reset
+	assigned := map[string]bool{}
+	if _, rd, _ := declOfSSA(p, reset); rd != nil && rd.Body != nil {
+		ast.Inspect(rd.Body, func(n ast.Node) bool {
+			if as, ok := n.(*ast.AssignStmt); ok {
+				for _, l := range as.Lhs {
+					if sel, ok := ast.Unparen(l).(*ast.SelectorExpr); ok {
+						assigned[sel.Sel.Name] = true
+					}
+				}
+			}
+			return true
+		})
+	}
+	var call ast.Node
+	ast.Inspect(fd.Body, func(n ast.Node) bool {
+		if c, ok := n.(*ast.CallExpr); ok && c.Pos() <= site.Pos() && site.Pos() < c.End() {
+			call = c
+		}
+		return true
+	})
+	if call == nil {
+		return false
+	}
+	for _, a := range core.Atoms(core.GuardsAt(info, fd.Body, call)) {
+		be, ok := ast.Unparen(a.Expr).(*ast.BinaryExpr)
+		if !ok {
+			continue
+		}
+		isNilTest := (be.Op == token.EQL && a.Pos) || (be.Op == token.NEQ && !a.Pos)
+		if !isNilTest {
+			continue
+		}
+		for _, pair := range [][2]ast.Expr{{be.X, be.Y}, {be.Y, be.X}} {
+			if tv, ok := info.Types[pair[1]]; ok && tv.IsNil() {
+				if sel, ok := ast.Unparen(pair[0]).(*ast.SelectorExpr); ok && assigned[sel.Sel.Name] {
+					return true
+				}
+			}
 		}
 	}
 	return false
